@@ -152,8 +152,12 @@ def run(chk):
     rows = [("CAVR", "TRAV1-1*01", "CASSL", "TRBV2*01"), ("CAVK", "TRAV1-1*01", "CASSQ", "TRBV2*01"),
             ("CAVR", "TRAV1-2*01", "CASSLL", "TRBV3-1*01"), ("CAV", "TRAV1-1*01", "CASSL", "TRBV2*01")]
     full = pd.DataFrame(rows, columns=["CDR3A", "TRAV", "CDR3B", "TRBV"], index=[7, 3, 9, 1])
+    # (the metric follows the columns PRESENT, in whatever order the table stores them)
     tabs = [("both", full, Cdr3Levenshtein, True, True), ("alpha", full[["CDR3A", "TRAV"]], AlphaCdr3Levenshtein, True, False),
-            ("beta", full[["CDR3B", "TRBV"]], BetaCdr3Levenshtein, False, True), ("none", full[["TRAV", "TRBV"]], Levenshtein, False, False)]
+            ("beta", full[["CDR3B", "TRBV"]], BetaCdr3Levenshtein, False, True),
+            ("both-beta-first", full[["TRBV", "CDR3B", "TRAV", "CDR3A"]], Cdr3Levenshtein, True, True),
+            ("both-extra-columns", full.assign(note="x")[["note", "CDR3B", "CDR3A"]], Cdr3Levenshtein, True, True),
+            ("none", full[["TRAV", "TRBV"]], Levenshtein, False, False)]
     dops = []
     for name, df, cls, ha, hb in tabs:
         got = type(ds.get_default_metric_for_input_data(df)).__name__
@@ -166,7 +170,7 @@ def run(chk):
         chk.case(nontrivial_key=("default-metric", name))
         if a != ("ok", got):
             chk.violation(f"C05|default-metric|{name}", f"default metric for input kind '{name}' is {got}, the decision table says {a}", {"kind": name})
-    for name, df, cls, ha, hb in tabs[:3]:
+    for name, df, cls, ha, hb in tabs[:5]:
         real = core.call_real(lambda: [int(v) for v in ds.pcDelta(df, bins=list(range(0, 8)), normalize=False)])
         via = core.call_real(lambda: [int(v) for v in np.histogram(cls().calc_pdist_vector(df), bins=list(range(0, 8)))[0]])
         # specification: sum of chain Levenshtein distances of the CDR3 columns present
@@ -206,6 +210,20 @@ def run(chk):
         if sum(real[1]) != min(N, m) * (min(N, m) - 1) // 2 or real != want:
             chk.violation("C05|pcDelta|maxseqs|differs", f"pcDelta(maxseqs={m}) is not the histogram of a sub-sample of {min(N, m)} elements",
                           {"xs": xs, "m": m, "real": real[1], "of_subsample": want})
+    # two collections with maxseqs: BOTH are reduced to at most maxseqs elements, whatever the size of the other one
+    for _ in range(12 if not thorough else 100):
+        n1, n2 = rng.choice([(3, 12), (12, 3), (10, 11), (2, 9), (4, 4)])
+        xs = gen.sub_collection(rng, pool[:20], n1)
+        ys = gen.sub_collection(rng, pool[:20], n2)
+        m = rng.choice([2, 3, 5, 6])
+        np.random.seed(rng.randrange(2 ** 31))
+        real = core.call_real(lambda: [int(v) for v in ds.pcDelta(xs, ys, bins=list(range(0, 12)), normalize=False, maxseqs=m)])
+        chk.case(nontrivial_key=("maxseqs2", tuple(xs), tuple(ys), m))
+        chk.count("pcDelta:maxseqs-two-collections")
+        want_pairs = min(n1, m) * min(n2, m)
+        if real[0] != "ok" or sum(real[1]) != want_pairs:
+            chk.violation("C05|pcDelta|maxseqs-two|pair-count", f"pcDelta(seqs ({n1}), seqs2 ({n2}), maxseqs={m}) counts {real} cross pairs in total, "
+                          f"expected min({n1},{m}) * min({n2},{m}) = {want_pairs}", {"xs": xs, "ys": ys, "m": m, "real": str(real)})
     # ---- background table bins
     # history: editing the returned bins must not change what a later call returns
     first = core.call_real(lambda: ds.load_pcDelta_background())
